@@ -47,6 +47,7 @@ class SimCluster:
         self.net.on_write = self._on_write
         self.error_for = {}  # (api, topic, partition) -> error code to answer with
         self.commit_log = []
+        self.applied = {}  # (topic, partition) -> parsed messages [(offset, dict)] of every produce the leader applied
 
     # ------------------------------------------------------------------ topology
     def add_broker(self, node, host=None, port=None):
@@ -131,6 +132,7 @@ class SimCluster:
                     for (p, ms) in ps:
                         if self.leaders.get((t.decode(), p)) == node:
                             self.logs.setdefault((t.decode(), p), []).extend((m["key"], m["value"]) for (_o, m) in ms)
+                            self.applied.setdefault((t.decode(), p), []).extend(ms)
                 return None
             out = []
             for (t, ps) in b["topics"]:
@@ -145,6 +147,7 @@ class SimCluster:
                         lg = self.logs.setdefault(tp, [])
                         base = len(lg)
                         lg.extend((m["key"], m["value"]) for (_o, m) in ms)
+                        self.applied.setdefault(tp, []).extend(ms)
                     parts.append((p, err, base, -1))
                 out.append((t, parts))
             return ref.resp_produce(corr, q["api_version"], out)
